@@ -65,25 +65,7 @@ def run(ctx):
                        bg.loc(), sample={"fn": fn, "begin": bg.loc(), "holders": [repr(a) for a in holders]})
 
     # ---- clause 2 ---------------------------------------------------------
-    b = ctx.body(M.COMMIT)
-    PD = M.PageDirty(F)
-    fs = [c for c in b.calls() if c.name == M.WAL_FSYNC]
-    oks = [paths.ok_arm(b, c) for c in fs]
-    pre = 0
-    for c in b.calls():
-        is_page = PD.is_D_site(c) or (PD.is_M_site(c) and c.name.startswith("nervusdb_storage::") and not c.name.startswith(M.ST + "wal::"))
-        is_idmap = c.name in M.IDMAP_APPLY
-        if not (is_page or is_idmap):
-            continue
-        ctx.instance("C02.2", "commit: %s (%s)" % (site_key(c), "node table" if is_idmap else "page file"))
-        ok = any(o is not None and b.dominates(o, c.bb) for o in oks)
-        if not ok:
-            pre += 1
-        ctx.oblige(ok, "C02.2", "commit:%s" % site_key(c),
-                   "state outside the log is mutated before the transaction's CommitTx record is durable "
-                   "(a crash leaves effects of an uncommitted transaction)", c.loc(),
-                   sample={"site": c.loc(), "callee": c.name, "fsync_ok_arm": oks})
-    ctx.floor("C02.2", "mutation sites in commit", len(ctx.instances["C02.2"]), 8)
+    pre_durable_mutation_rule(ctx, "C02.2")
 
     # ---- clause 3 ---------------------------------------------------------
     b = ctx.body(REPLAY)
@@ -122,6 +104,27 @@ def run(ctx):
                    sample={"apply": c.loc(), "lookups": [l.loc() for l in lookups]})
 
     scanner_rule(ctx, "C02.4")
+
+
+def pre_durable_mutation_rule(ctx, rid):
+    """commit mutates pages / node table only after CommitTx is appended and fsynced (shared as C07.5)"""
+    F = ctx.facts
+    b = ctx.body(M.COMMIT)
+    PD = M.PageDirty(F)
+    fs = [c for c in b.calls() if c.name == M.WAL_FSYNC]
+    oks = [paths.ok_arm(b, c) for c in fs]
+    for c in b.calls():
+        is_page = PD.is_D_site(c) or (PD.is_M_site(c) and c.name.startswith("nervusdb_storage::") and not c.name.startswith(M.ST + "wal::"))
+        is_idmap = c.name in M.IDMAP_APPLY
+        if not (is_page or is_idmap):
+            continue
+        ctx.instance(rid, "commit: %s (%s)" % (site_key(c), "node table" if is_idmap else "page file"))
+        ok = any(o is not None and b.dominates(o, c.bb) for o in oks)
+        ctx.oblige(ok, rid, "commit:%s" % site_key(c),
+                   "state outside the log is mutated before the transaction's CommitTx record is durable "
+                   "(a crash, or a commit that fails afterwards, leaves effects of an uncommitted transaction)", c.loc(),
+                   sample={"site": c.loc(), "callee": c.name, "fsync_ok_arm": oks})
+    ctx.floor(rid, "mutation sites in commit", len(ctx.instances[rid]), 8)
 
 
 def scanner_rule(ctx, rid):
